@@ -29,7 +29,7 @@ ARENAS = [0x60001000, 0x6123f000, 0xe5001100, 0x00401000, 0x00000400,
 def plan(tier, prop):
     quick = tier == "quick"
     return {
-        "runs": 6000 if quick else 400000,
+        "runs": 12000 if quick else 500000,
         "budget_s": 50 if quick else 800,
         "chunk": 40 if quick else 200,
         "rule": "each run = one seeded machine (1-4 chips, buffer size, "
